@@ -49,13 +49,23 @@ class TlcResult:
 
         Only lines that start with << are considered (the specs print tuples)."""
         vals = []
+        buf = None
         for line in self.out.splitlines():
-            line = line.strip()
-            if line.startswith('<<') and line.endswith('>>'):
+            t = line.strip()
+            if buf is None:
+                if not t.startswith('<<'):
+                    continue
+                buf = t
+            else:
+                buf += ' ' + t
+            if buf.count('<<') == buf.count('>>') and buf.count('{') == buf.count('}') and buf.count('[') == buf.count(']'):
                 try:
-                    vals.append(parse_tla_value(line))
+                    vals.append(parse_tla_value(buf))
                 except Exception:
                     pass
+                buf = None
+            elif len(buf) > 2000000:
+                buf = None
         return vals
 
     def coverage(self):
